@@ -52,13 +52,16 @@ type psSRef struct {
 	Nil  bool
 	Conn int
 	A    int
+	// Back: which SRP session of the connection — 0 the one of the current exchange (the latest start response the
+	// controller has seen), k the one k exchanges earlier (a value recorded then and sent again now)
+	Back int
 }
 
 func (s psSRef) tok() string {
 	if s.Nil {
 		return "nil"
 	}
-	return fmt.Sprintf("srp %d %d", s.Conn, s.A)
+	return fmt.Sprintf("srp %d %d %d", s.Conn, s.Back, s.A)
 }
 
 type psMsg struct {
@@ -68,6 +71,7 @@ type psMsg struct {
 	AN        int
 	ProofKind string // valid garbage empty
 	PConn, PA int
+	PBack     int // the SRP session the proof was computed for (see psSRef.Back)
 	PCodeOk   bool
 	// m5
 	Short     int // >=0: short n; -1: sealed
@@ -112,7 +116,7 @@ func (m psMsg) tok() string {
 		p := m.ProofKind
 		switch m.ProofKind {
 		case "valid":
-			p = fmt.Sprintf("valid %d %d %s", m.PConn, m.PA, b01(m.PCodeOk))
+			p = fmt.Sprintf("valid %d %d %d %s", m.PConn, m.PBack, m.PA, b01(m.PCodeOk))
 		case "garbage":
 			p = fmt.Sprintf("garbage %d", m.N)
 		case "public":
@@ -158,10 +162,11 @@ func (m psMsg) noop() bool { return m.Kind == "reconnect" || m.Kind == "badmetho
 
 type psConn struct {
 	addr    string
-	salt, B []byte
+	salt, B []byte // of the latest start response
+	m2s     [][2][]byte // salt, B of every start response of the connection, in order (one SRP session per exchange)
 	unknown bool                  // reconnected: salt and B of the new connection not seen yet
-	right   map[int]*refSRPClient // client key a, right setup code
-	wrong   map[int]*refSRPClient
+	right   map[[2]int]*refSRPClient // (session index, client key a), right setup code
+	wrong   map[[2]int]*refSRPClient
 }
 
 type psEnv struct {
@@ -205,28 +210,39 @@ func (e *psEnv) name(n int) string {
 	return s
 }
 
-func (e *psEnv) client(conn, a int, right bool) *refSRPClient {
+func (e *psEnv) client(conn, back, a int, right bool) *refSRPClient {
 	pc := e.conns[conn]
 	m := pc.wrong
 	pw := "999-99-999"
 	if right {
 		m, pw = pc.right, e.pw
 	}
-	if m[a] == nil {
-		// the client key depends on `a` only (same A on every connection), the response on the connection's B/salt
+	idx := len(pc.m2s) - 1 - back
+	if m[[2]int{idx, a}] == nil {
+		// the client key depends on `a` only (same A on every connection), the response on the session's B/salt
 		ar := rand.New(rand.NewSource(int64(a)*7919 + 17))
 		cl := newRefSRPClient(ar, "Pair-Setup", pw)
-		cl.Respond(pc.salt, pc.B)
-		m[a] = cl
+		salt, B := pc.salt, pc.B
+		switch {
+		case idx >= 0 && idx < len(pc.m2s) && !pc.unknown:
+			salt, B = pc.m2s[idx][0], pc.m2s[idx][1]
+		case back > 0:
+			// from before the first session of this connection: a challenge the accessory never sent
+			sr := rand.New(rand.NewSource(int64(idx)*31 + 5))
+			salt = randBytes(sr, 16)
+			B = new(bigInt).Exp(refSrpG, new(bigInt).SetBytes(randBytes(sr, 32)), refSrpN).Bytes()
+		}
+		cl.Respond(salt, B)
+		m[[2]int{idx, a}] = cl
 	}
-	return m[a]
+	return m[[2]int{idx, a}]
 }
 
 func (e *psEnv) sBytes(s psSRef) []byte {
 	if s.Nil {
 		return nil
 	}
-	return e.client(s.Conn, s.A, true).K
+	return e.client(s.Conn, s.Back, s.A, true).K
 }
 
 func (e *psEnv) concretise(conn int, m psMsg) []byte {
@@ -245,7 +261,7 @@ func (e *psEnv) concretise(conn int, m psMsg) []byte {
 	case "m3":
 		var A []byte
 		if m.AGood {
-			A = e.client(conn, m.AN, true).Abytes()
+			A = e.client(conn, 0, m.AN, true).Abytes()
 		} else {
 			switch m.AN % 4 {
 			case 0:
@@ -261,7 +277,7 @@ func (e *psEnv) concretise(conn int, m psMsg) []byte {
 		var proof []byte
 		switch m.ProofKind {
 		case "valid":
-			proof = e.client(m.PConn, m.PA, m.PCodeOk).M1
+			proof = e.client(m.PConn, m.PBack, m.PA, m.PCodeOk).M1
 		case "garbage":
 			proof = randBytes(e.r, 64)
 		case "public":
@@ -420,7 +436,7 @@ func newPsEnv(c *Ctx, r *rand.Rand, nconn int) (*psEnv, error) {
 	}
 	e := &psEnv{f: f, ldb: f.db.(*loggingDB), r: r, pw: f.pin, ids: map[int]*refIdentity{}, names: map[int]string{}}
 	for i := 0; i < nconn; i++ {
-		pc := &psConn{addr: fmt.Sprintf("10.0.0.%d:5000", i+1), right: map[int]*refSRPClient{}, wrong: map[int]*refSRPClient{}}
+		pc := &psConn{addr: fmt.Sprintf("10.0.0.%d:5000", i+1), right: map[[2]int]*refSRPClient{}, wrong: map[[2]int]*refSRPClient{}}
 		// prelude (not part of the modelled history): m1 learns this connection's salt and B, a second m1 is rejected
 		// and puts the controller back to `waiting`, which is the model's initial state.
 		post := f.Post(pc.addr)
@@ -430,6 +446,7 @@ func newPsEnv(c *Ctx, r *rand.Rand, nconn int) (*psEnv, error) {
 		}
 		items, _ := refTlvParse(body)
 		pc.salt, pc.B = tlvGet(items, tSalt), tlvGet(items, tPubKey)
+		pc.m2s = append(pc.m2s, [2][]byte{pc.salt, pc.B})
 		post("/pair-setup", tlvMsg(tlvOp{tState, b1(1)}, tlvOp{tMethod, b1(0)}))
 		e.conns = append(e.conns, pc)
 	}
@@ -469,7 +486,11 @@ func genPsMsg(r *rand.Rand, conn, nconn int, a *int, fresh *int) psMsg {
 		case 2:
 			m.ProofKind = "empty"
 		case 3:
-			m.PConn = other // proof made for the other connection's challenge
+			if r.Intn(2) == 0 {
+				m.PBack = 1 + r.Intn(2) // a proof recorded in an earlier exchange of this connection, sent again
+			} else {
+				m.PConn = other // proof made for the other connection's challenge
+			}
 		case 4:
 			m.PA = *a + 1 // proof for a different client key
 		default:
@@ -525,7 +546,11 @@ func genPsMsg(r *rand.Rand, conn, nconn int, a *int, fresh *int) psMsg {
 			m.KS = psSRef{Conn: other, A: *a} // sealed under the other connection's session key
 			m.SigS = m.KS
 		default:
-			m.SigS = psSRef{Conn: conn, A: *a + 1} // signature bound to another exchange's S
+			if r.Intn(2) == 0 {
+				m.SigS = psSRef{Conn: conn, A: *a + 1} // signature bound to another client key's S
+			} else {
+				m.KS.Back, m.SigS.Back = 1, 1 // a key exchange recorded in the previous exchange of this connection
+			}
 		}
 		return m
 	case 9:
@@ -618,7 +643,14 @@ func psCorpus() [][]psStep {
 	pubA0 := psMsg{Kind: "m3", AGood: false, AN: 1, ProofKind: "public"}
 	zeroM5n, nilM5n := zeroM5, nilM5
 	zeroM5n.Neutral, nilM5n.Neutral = true, true
+	replayM3, replayM5 := validM3(0, 0), genuineM5(0, 0, 7, 9)
+	replayM3.PBack, replayM5.KS.Back, replayM5.SigS.Back = 1, 1, 1
 	return [][]psStep{
+		// the messages of a completed exchange sent again after a new start request on the same connection (F43): in the
+		// second exchange nobody proves the setup code
+		{{0, psMsg{Kind: "m1"}}, {0, validM3(0, 0)}, {0, genuineM5(0, 0, 7, 9)}, {0, psMsg{Kind: "m1"}}, {0, psMsg{Kind: "m1"}}, {0, replayM3}, {0, replayM5}},
+		{{0, psMsg{Kind: "m1"}}, {0, validM3(0, 0)}, {0, psMsg{Kind: "m1"}}, {0, psMsg{Kind: "m1"}}, {0, replayM3}, {0, replayM5}},
+		{{0, psMsg{Kind: "m1"}}, {0, validM3(0, 0)}, {0, genuineM5(0, 0, 7, 9)}, {0, psMsg{Kind: "m1"}}, {0, psMsg{Kind: "m1"}}, {0, validM3(0, 0)}, {0, replayM5}},
 		// a key-exchange anybody can make (zero / empty-secret key, neutral-element key with its trivial signature) after a refused proof
 		{{0, psMsg{Kind: "m1"}}, {0, wrong}, {0, zeroM5n}},
 		{{0, psMsg{Kind: "m1"}}, {0, wrong}, {0, nilM5n}},
@@ -685,6 +717,11 @@ func checkC02(c *Ctx) {
 			seg := 0
 			flush := func() {
 				if len(toks) > 0 {
+					if seg == 0 {
+						// the fixture's prelude (a start request that is answered, one that is rejected) is part of the
+						// connection's history: the first start request of the case already opens the second exchange
+						toks = append([]string{"m1", "m1"}, toks...)
+					}
 					lines = append(lines, fmt.Sprintf("pairsetup run 1 %d %s", conn, strings.Join(toks, " ; ")))
 					refs = append(refs, lref{ci, conn, seg})
 				}
@@ -712,6 +749,9 @@ func checkC02(c *Ctx) {
 		}
 		parts := strings.SplitN(model[i], " | ", 2)
 		modelObs[rf] = strings.Split(parts[0], " ; ")
+		if rf.seg == 0 && len(modelObs[rf]) >= 2 {
+			modelObs[rf] = modelObs[rf][2:] // the prelude's two answers
+		}
 	}
 	implObs := make([][]string, len(live))
 	parallel(len(live), func(ci int) {
@@ -738,7 +778,8 @@ func checkC02(c *Ctx) {
 				// no prelude here: the new connection's first request is whatever the history sends next; its salt and B are
 				// learnt from the first start request that is answered (until then proofs are computed from the old ones)
 				pc.unknown = true
-				pc.right, pc.wrong = map[int]*refSRPClient{}, map[int]*refSRPClient{}
+				pc.m2s = nil
+				pc.right, pc.wrong = map[[2]int]*refSRPClient{}, map[[2]int]*refSRPClient{}
 				env.ldb.take()
 				accepted[s.Conn] = -1
 				implObs[ci] = append(implObs[ci], "reconnected")
@@ -748,10 +789,11 @@ func checkC02(c *Ctx) {
 			body := env.concretise(s.Conn, s.Msg)
 			st, resp, _, pm := env.f.Do(env.conns[s.Conn].addr, "POST", "/pair-setup", "application/pairing+tlv8", body)
 			saves, _ := env.ldb.take()
-			if pc := env.conns[s.Conn]; pc.unknown && s.Msg.Kind == "m1" && st == 200 {
+			if pc := env.conns[s.Conn]; s.Msg.Kind == "m1" && st == 200 {
+				// every start response carries the challenge of a new SRP session
 				if items, ok := refTlvParse(resp); ok && len(tlvGet(items, tSalt)) == 16 {
 					pc.salt, pc.B, pc.unknown = tlvGet(items, tSalt), tlvGet(items, tPubKey), false
-					pc.right, pc.wrong = map[int]*refSRPClient{}, map[int]*refSRPClient{}
+					pc.m2s = append(pc.m2s, [2][]byte{pc.salt, pc.B})
 				}
 			}
 			obs := env.observe(st, resp, pm, saves)
@@ -760,7 +802,7 @@ func checkC02(c *Ctx) {
 			m := s.Msg
 			// ---- direct oracles (independent of the Lean model)
 			m4ok := strings.HasPrefix(obs, "tlv 4 - ")
-			validProof := m.Kind == "m3" && m.AGood && m.ProofKind == "valid" && m.PConn == s.Conn && m.PA == m.AN && m.PCodeOk
+			validProof := m.Kind == "m3" && m.AGood && m.ProofKind == "valid" && m.PConn == s.Conn && m.PA == m.AN && m.PCodeOk && m.PBack == 0
 			if m4ok && !validProof {
 				c.Violate("pair-setup accepted an SRP proof that does not prove the setup code", cs.id, hist, "M4 error", obs)
 			}
